@@ -584,7 +584,60 @@ def DES_POST2(s, t):
         "delimited-framing": IMPLIES(ISINST(t, "DelimitedType"), lambda: AND(
             r._bit_offset == o._bit_offset + 32 + 8 * HEADER_VALUE(o, t),
             8 * HEADER_VALUE(o, t) <= REMAINING_AFTER(o, 32))),
+        # decoder positions agree with the Specification's lengths (and hence with the serializer, field by field): the
+        # reader - bounded or not - advances by an element of L(T) when no delimited type is nested inside T ...
+        "length-in-L": IMPLIES(DEEP_SEALED(t), lambda: IN_L(r._bit_offset - o._bit_offset, t)),
+        # ... and a delimited object by 32 + 8 * header, an element of L(T) iff the header respects the extent
+        "delimited-length-in-L": IMPLIES(AND(ISINST(t, "DelimitedType"),
+                                             lambda: HEADER_VALUE(o, t) <= DIV(AS(t, DELIMITED)._extent, 8)),
+                                         lambda: IN_L(r._bit_offset - o._bit_offset, t)),
     }
+
+
+_sd_f = z3.Function("ghost!deep_sealed", RefSort, z3.BoolSort())
+
+
+def _native_deep_sealed(t):
+    n = type(t).__name__
+    if n == "DelimitedType":
+        return False
+    if n in ("FixedLengthArrayType", "VariableLengthArrayType"):
+        return _native_deep_sealed(t.element_type)
+    if n in ("StructureType", "UnionType"):
+        return all(_native_deep_sealed(f.data_type) for f in t.fields)
+    return True
+
+
+def DEEP_SEALED(t):
+    """Ghost: no delimited type occurs anywhere inside the type (defined by structural recursion over the finite type tree:
+    primitives / void: yes; arrays: as their element type; structures / unions: only if every field type is; delimited: no).
+    The defining equations are given to the solver as instances for the classes / objects at hand (conservative extension)."""
+    if not smt():
+        return _native_deep_sealed(t)
+    ctx = speclib.CTX
+    e = ctx.engine
+    done = ctx.__dict__.setdefault("c06_sd_axioms", set())
+    if "classes" not in done:
+        done.add("classes")
+        r = z3.Const("sd!r", RefSort)
+        ids = lambda *names: z3.Or(*[e.tag_fn(r) == e.class_id(c) for n in names for c in e.class_by_name(n).all_subclasses()])
+        elem = e.uf("fld!ArrayType!_element_type", RefSort, RefSort)
+        ctx.add_axiom(z3.ForAll([r], z3.Implies(ids("PrimitiveType", "VoidType"), _sd_f(r)), patterns=[_sd_f(r)]))
+        ctx.add_axiom(z3.ForAll([r], z3.Implies(ids("ArrayType"), _sd_f(r) == _sd_f(elem(r))), patterns=[_sd_f(r)]))
+        ctx.add_axiom(z3.ForAll([r], z3.Implies(ids("DelimitedType"), z3.Not(_sd_f(r))), patterns=[_sd_f(r)]))
+    if isinstance(t, Obj) and ("obj", t.ref.get_id()) not in done:
+        done.add(("obj", t.ref.get_id()))
+        parts = [e.isinstance_of(ctx, t, e.class_by_name(n)) for n in ("StructureType", "UnionType")]
+        comp = False if all(x is False for x in parts) else ISINST(t, "StructureType", "UnionType")
+        if comp is not False:
+            ft = FIELD_TYPES(t)
+            i = z3.FreshConst(z3.IntSort(), "sdi")
+            from pyvc.loops import mk_forall
+
+            ctx.add_axiom(mk_forall([i], z3.Implies(z3.And(comp if not isinstance(comp, bool) else z3.BoolVal(comp), _sd_f(t.ref),
+                                                          0 <= i, i < ft.length), _sd_f(z3.Select(ft.arr, i))),
+                                    patterns=[z3.Select(ft.arr, i)]))
+    return _sd_f(t.ref)
 
 
 def ALIGNED_AT(t, off):
@@ -697,7 +750,18 @@ def _des_array_loop(s):
     o, r = s.old.reader, s.reader
     return {"frame": AND(SAME_BYTES(r._data, o._data), r._start_offset == o._start_offset, EQ(r._bit_limit, o._bit_limit)),
             "forward": r._bit_offset >= o._bit_offset,
-            "element-aligned": ALIGNED_AT(s.schema._element_type, r._bit_offset)}
+            "element-aligned": ALIGNED_AT(s.schema._element_type, r._bit_offset),
+            # i elements of a deep-sealed element type: the position is (prefix +) a k-fold sum of element lengths
+            "progress": IMPLIES(DEEP_SEALED(s.schema._element_type), lambda: MEM(
+                r._bit_offset - o._bit_offset - ITE(ISINST(s.schema, "VariableLengthArrayType"), PREFIX_W(s.schema), 0),
+                kfold_s(L_OF(s.schema._element_type), s.i)))}
+
+
+def _des_array_triggers(s):
+    return [st.kfold_unfold(L_OF(s.schema._element_type), s.i)]
+
+
+_des_array_loop.triggers = _des_array_triggers
 
 
 @contract(SD + "_deserialize_composite", props=P7)
@@ -708,6 +772,13 @@ class _DesComposite:
     # TypeError iff the type is a service type: fields / inner types are never services (C02 class invariants)
     raises = {"TypeError": lambda s: ISINST(s.schema, "ServiceType")}
     raises_only_if = {"SerDesError": lambda s: True, "ValueError": lambda s: True}
+    # cuts about the intermediate positions (same steps as on the serializer side, under the premise that no delimited type
+    # is nested inside the schema)
+    at_call = {
+        "_BitReader.align_to": lambda s, c: dict(
+            _union_before_padding(s, c, dev="reader", premise=DEEP_SEALED(s.schema)), **_struct_before_alignment(s, c, dev="reader")),
+        "_deserialize_field_value": lambda s, c: _struct_field_aligned(s, c, dev="reader", premise=DEEP_SEALED(s.schema)),
+    }
     # rejected, not clamped (exceptions raised by this function itself, as opposed to nested objects)
     raises_here = {
         "DelimiterHeaderError": lambda s: AND(ISINST(s.schema, "DelimitedType"),
@@ -723,9 +794,24 @@ class _DesComposite:
         d = DES_POST2(s, s.schema)
         # final padding to the alignment of the composite (byte)
         d["aligned-end"] = IMPLIES(NOT(ISINST(s.schema, "ServiceType")), s.reader._bit_offset % 8 == 0)
+        d["cut-delimited-steps"] = IMPLIES(AND(ISINST(s.schema, "DelimitedType"), lambda: HEADER_VALUE(
+            s.old.reader, s.schema) <= DIV(AS(s.schema, DELIMITED)._extent, 8)), lambda: _des_delimited_chain(s))
         d["tag-not-clamped"] = IMPLIES(ISINST(s.schema, "UnionType"),
                                        lambda: TAG_READ(s.old.reader, s.schema) < LEN(FIELDS(s.schema)))
         return d
+
+
+def _des_delimited_chain(s):
+    t = s.schema
+    if not smt():
+        return True
+    n = V_Int(HEADER_VALUE(s.old.reader, t))
+    K = V_Int(DIV(AS(t, DELIMITED)._extent, 8))
+    M = st.mults_f(z3.IntVal(8), K)
+    S32 = st.sumset_f(st.singleton_f(z3.IntVal(32)), M)
+    H_MULT(8, K, n)
+    return AND(z3.Select(M, n * 8), z3.Select(st.singleton_f(z3.IntVal(32)), z3.IntVal(32)), z3.Select(S32, 32 + n * 8),
+               MEM(32 + n * 8, L_OF(t)))
 
 
 def TAG_READ(o, t):
@@ -735,8 +821,23 @@ def TAG_READ(o, t):
 @loop_invariant(SD + "_deserialize_composite", loop=0)
 def _des_struct_loop(s):
     o, r = s.old.reader, s.reader
+    ft = FIELD_TYPES(s.schema)
+    sf = st.V.SymSet(st.sfold_f(st.lmap_f(ft.arr), st.amap_f(ft.arr), st._i(s.i)))
+    y = r._bit_offset - o._bit_offset
     return {"frame": AND(SAME_BYTES(r._data, o._data), r._start_offset == o._start_offset, EQ(r._bit_limit, o._bit_limit)),
-            "forward": r._bit_offset >= o._bit_offset}
+            "forward": r._bit_offset >= o._bit_offset,
+            "hint": AND(H_PAD(y), H_PADSET_IN(sf, y)),
+            # the position after i fields is in the layout fold of the first i fields (as on the serializer side)
+            "progress": IMPLIES(DEEP_SEALED(s.schema), lambda: MEM(y, sf))}
+
+
+def _des_struct_triggers(s):
+    ft = FIELD_TYPES(s.schema)
+    F, M = st.lmap_f(ft.arr), st.amap_f(ft.arr)
+    return [st.sfold_unfold(F, M, s.i), st.sfold_unfold(F, M, 0)]
+
+
+_des_struct_loop.triggers = _des_struct_triggers
 
 
 def FIELDS_SERIALIZABLE(seq):
@@ -1128,16 +1229,20 @@ def _struct_ctx(s):
     return idx[-1], st.lmap_f(ft.arr), st.amap_f(ft.arr)
 
 
-def _struct_before_alignment(s, c):
-    """at writer.align_to inside the structure loop: remember the unaligned prefix length (used by the next cut)"""
+def _dev(ns, dev):
+    return ns.__dict__[dev]
+
+
+def _struct_before_alignment(s, c, dev="writer"):
+    """at <device>.align_to inside the structure loop: remember the unaligned prefix length (used by the next cut)"""
     sc = _struct_ctx(s)
     if sc is None:
         return {}
-    s.ctx.__dict__["c06_unaligned"] = V_Int(c.self._bit_offset - s.old.writer._bit_offset)
+    s.ctx.__dict__["c06_unaligned"] = V_Int(c.self._bit_offset - _dev(s.old, dev)._bit_offset)
     return {}
 
 
-def _struct_field_aligned(s, c):
+def _struct_field_aligned(s, c, dev="writer", premise=None):
     """at _serialize_field_value inside the structure loop, in small steps: the entry position is byte aligned; the
     alignment of field i is Amap[i]; the position is pad(A, unaligned prefix length); hence it is in
     padset(SFold(first i fields), A(field i))"""
@@ -1146,15 +1251,16 @@ def _struct_field_aligned(s, c):
     if sc is None or y0 is None:
         return {}
     i, F, M = sc
-    y = V_Int(c.writer._bit_offset - s.old.writer._bit_offset)
+    y = V_Int(_dev(c, dev)._bit_offset - _dev(s.old, dev)._bit_offset)
     a = V_Int(A_OF(c.field_type))
-    return {"entry-aligned": V_Int(s.old.writer._bit_offset) % 8 == 0,
+    g = (lambda f: f) if premise is None else (lambda f: z3.Implies(premise, f))
+    return {"entry-aligned": V_Int(_dev(s.old, dev)._bit_offset) % 8 == 0,
             "field-alignment": z3.Select(M, i) == a,
             "aligned-position": z3.Or(z3.And(a == 8, y == st.pad_f(z3.IntVal(8), y0)), z3.And(a == 1, y == st.pad_f(z3.IntVal(1), y0))),
-            "aligned-prefix-length": z3.Select(st.padset_f(st.sfold_f(F, M, i), z3.Select(M, i)), y)}
+            "aligned-prefix-length": g(z3.Select(st.padset_f(st.sfold_f(F, M, i), z3.Select(M, i)), y))}
 
 
-def _union_before_padding(s, c):
+def _union_before_padding(s, c, dev="writer", premise=None):
     t = s.schema
     if not smt():
         return {}
@@ -1168,10 +1274,12 @@ def _union_before_padding(s, c):
     U = st.unions_f(F, n)
     w = V_Int(TAG_W(t))
     S = st.sumset_f(st.singleton_f(w), U)
-    y = V_Int(c.self._bit_offset - s.old.writer._bit_offset)
+    y = V_Int(c.self._bit_offset - _dev(s.old, dev)._bit_offset)
     g = is_union if not isinstance(is_union, bool) else z3.BoolVal(is_union)
     if not speclib.CTX.engine.feasible(speclib.CTX, g):
         return {}  # not on the union path
+    if premise is not None:
+        g = z3.And(g, premise)
     return {"variant-length": z3.Implies(g, z3.Select(U, y - w)),
             "tagged-length": z3.Implies(g, z3.And(z3.Select(st.singleton_f(w), w), z3.Select(S, y))),
             "padded-length": z3.Implies(g, z3.And(z3.Select(st.padset_f(S, z3.IntVal(8)), st.pad_f(z3.IntVal(8), y)),
